@@ -6,7 +6,7 @@ for p in sorted(glob.glob('/verif/seeded/*/meta.json')):
     m = json.load(open(p))
     first = m.get('first_evaluation', '')
     rows.append((m['seed'], m['property'], m.get('needs_to_manifest', '')[:170], ', '.join(m.get('caught_by', [])) or 'none',
-                 'NOT DETECTED (see meta.json)' if m.get('not_detected') else 'missed; later made harmless by a fix in /repo (see meta.json)' if m.get('neutralised_by') else ('missed, then strengthened' if ('MISSED' in first or 'would have' in first) else 'caught')))
+                 'NOT DETECTED (see meta.json)' if m.get('not_detected') else 'no alarm expected: does not break the property as stated (see meta.json)' if m.get('not_property_breaking') else 'missed; later made harmless by a fix in /repo (see meta.json)' if m.get('neutralised_by') else ('missed, then strengthened' if ('missed' in first.lower() or 'would have' in first) else 'caught')))
 tab = "| seeded change | property | needs, to manifest | caught by | first evaluation |\n|---|---|---|---|---|\n" + "".join("| %s | %s | %s | %s | %s |\n" % r for r in rows)
 n_missed = sum(1 for r in rows if r[4] != 'caught')
 s = open('/verif/DESIGN.md').read()
